@@ -380,13 +380,13 @@ operations (overshooting write, overshooting direct-write report), after which l
     randoms: &[
         RandomDef {
             name: "loops",
-            cases: |t: Tier| t.pick(30_000, 6_000_000),
+            cases: |t: Tier| t.pick(150_000, 6_000_000),
             tape_len: 12,
             exec: Some(exec_loop),
         },
         RandomDef {
             name: "histories",
-            cases: |t: Tier| t.pick(60_000, 6_000_000),
+            cases: |t: Tier| t.pick(400_000, 6_000_000),
             tape_len: 70,
             exec: Some(exec_history),
         },
